@@ -44,7 +44,10 @@ def gen(seed, tier):
     if sp:
         ops = [op for op in ops if op[0] != 'rb' or r.random() < 0.3]
     return {'kind': kind, 'ops': ops, 'savepoints': sp,
-            'cache_size': 400,
+            # (small: the clean-up at a savepoint evicts objects -- also
+            # new ones it has just saved)
+            'cache_size': 400 if r.random() < 0.8 else r.choice((1, 3)),
+            'look_after_sp': r.random() < 0.5,
             'bufsize': r.choice((64, 8192)), 'tier': tier}
 
 
